@@ -7,7 +7,7 @@ LEVEL = 'model_checking'
 RULE = ('every clause body tree with <= N operators from , ; -> \\+ over the 8 leaves '
         '{true fail ! z o(Vi) m(Vi) m(V1) k(Vi)} that contains at least one cut in a transparent '
         'position (or a call of k/1, a predicate whose own clause ends in a cut) and none in an opaque one, placed in the context p(..):-BODY. p(9..). '
-        'c(..,Z):-m(Z),p(..). plus a dynamic fact p(7..), in 6 context variants: with / without a two-solution goal to '
+        'c(..,Z):-m(Z),p(..). plus a dynamic fact p(7..), in 8 context variants (two of them with the clause variables inside a structure w(V1..Vn) that is the clause\'s only argument and is put together before the goals bind them): with / without a two-solution goal to '
         'the LEFT of the body x 0, 1 or 2 goals to its RIGHT (thorough, 3 operators: 2 of the 6 variants; and a second '
         'script adding p(6..) without overwrite); compiled, loaded into a fresh engine, query c(A1..Ak,Z) run twice '
         'and compared answer by answer with RefProlog; plus every body with N+1 operators over the cut-focused leaves {! m(Vi) z} (2 context variants; thorough 1); plus every body with <= 2 operators that contains the leaf t2(V1) - a test on the variable of the first goal that fails for its first solution and succeeds for the second; plus every body with <= 2 operators that calls kk/0, a predicate with one clause ending in a cut whose name is also used at arity 1 by a predicate without cut; plus tables of N clauses that each end in (or start with) a cut, followed by a catch-all clause, for 20 values of N up to 130; plus cuts behind a head that may not match: every pair of the 13 head-argument shapes (repeated variables, constants, structures, lists) x every body of <= 1 operator over {! o m fail} with a cut, followed by a catch-all clause, queried with every pair of 6 argument shapes. states = distinct answer sequences; '
@@ -98,7 +98,7 @@ def run_focus(spec):
     _, k, n, tier = spec
     acc = Acc()
     nops = 3 if tier == 'quick' else 4
-    variants = [dict(), dict(prefix=True, suffix=1)] if tier == 'quick' else [dict(prefix=True, suffix=1)]
+    variants = [dict(), dict(prefix=True, suffix=1), dict(wrapped=True, suffix=1)] if tier == 'quick' else [dict(prefix=True, suffix=1), dict(wrapped=True, suffix=1)]
     for idx, t in enumerate(bodies.trees(nops, FOCUS)):
         if idx % n != k:
             continue
@@ -238,6 +238,8 @@ def run_shard(spec):
     # context variants: a goal with alternatives to the left of the body (the cut must discard
     # them) and 0, 1 or 2 goals to its right (they must still backtrack)
     full = [dict(prefix=pf, suffix=sf) for pf in (False, True) for sf in (0, 1, 2)]
+    # ... and the clause's variables inside a structure that is the clause's only argument (wrapped)
+    full = full + [dict(wrapped=True, suffix=1), dict(wrapped=True, prefix=True)]
     if tier == 'quick':
         return treecheck.run_trees((k, n, maxops), select, full)
     acc = treecheck.run_trees((k, n, 2), select, full + [dict(extra_script=True)])
